@@ -78,12 +78,14 @@ Section CoreRun.
 
   Lemma do_agg_frame s l g d : writes g <> Some d -> forall key, dget (x mx (fst (do_agg q blanks AND s l g))) d key = dget (x mx s) d key.
   Proof.
-    intros Hw key. destruct g as [i|nm i|nm i n|nm k|nm e|nm i e|nm key' e|i|i j|nm e|nm k0 n0|v0 nm c0|qs0 nm e]; cbn [do_agg writes] in *;
+    intros Hw key. destruct g as [i|nm i|nm i n|nm k|nm e|nm i e|nm key' e|i|i j|nm e|nm k0 n0|v0 nm c0|qs0 nm key0 e|qs0 nm e]; cbn [do_agg writes] in *;
       try (cbn [fst x with_mx]; first [reflexivity | apply dget_dset_other_dict; intros E0; apply Hw; rewrite E0; reflexivity]).
     - destruct (dget (x mx s) nm (hdr_key l i)) as [[z'|z'|t|]|]; cbn [fst x with_mx]; try reflexivity;
         apply dget_dset_other_dict; intros E0; apply Hw; rewrite E0; reflexivity.
     - destruct (none_like _); reflexivity.
     - destruct (is_blank_text (tally_text l i)); cbn [fst x with_mx]; [reflexivity|].
+      apply dget_dset_other_dict; intros E0; apply Hw; rewrite E0; reflexivity.
+    - destruct (Assign.do_assignment _ _ _ _) as [[[|] ?]|]; cbn [fst x with_mx]; try reflexivity.
       apply dget_dset_other_dict; intros E0; apply Hw; rewrite E0; reflexivity.
     - destruct (Assign.do_assignment _ _ _ _) as [[[|] ?]|]; reflexivity.
   Qed.
@@ -200,11 +202,12 @@ Section CoreRun.
   Lemma do_agg_frame_var s l g v : (match g with Counter nm _ | Sum nm _ | CounterE nm _ | CounterEq nm _ _ | CountIf nm _ _ | AssignQ _ nm _ => nm <> v | _ => True end) ->
     lookup v (vars (x mx (fst (do_agg q blanks AND s l g)))) = lookup v (vars (x mx s)).
   Proof.
-    intros Hw. destruct g as [i|nm i|nm i n|nm k|nm e|nm i e|nm key' e|i|i j|nm e|nm k0 n0|v0 nm c0|qs0 nm e]; cbn [do_agg]; try reflexivity;
+    intros Hw. destruct g as [i|nm i|nm i n|nm k|nm e|nm i e|nm key' e|i|i j|nm e|nm k0 n0|v0 nm c0|qs0 nm key0 e|qs0 nm e]; cbn [do_agg]; try reflexivity;
       try (cbn [fst x with_mx vars dset]; apply lookup_update_other; exact Hw).
     - destruct (dget (x mx s) nm (hdr_key l i)) as [[z'|z'|t|]|]; reflexivity.
     - destruct (none_like _); cbn [fst x with_mx vars]; apply lookup_update_other; exact Hw.
     - destruct (is_blank_text (tally_text l i)); reflexivity.
+    - destruct (Assign.do_assignment _ _ _ _) as [[[|] ?]|]; reflexivity.
     - destruct (Assign.do_assignment _ _ _ _) as [[[|] ?]|]; cbn [fst x with_mx vars]; try reflexivity. apply lookup_update_other. exact Hw.
   Qed.
 
@@ -255,7 +258,7 @@ Section CoreRun.
     unfold init_vars. induction cs as [|c cs IH]; intros vs; [reflexivity|]. cbn [fold_left]. rewrite IH.
     unfold comp_init. destruct c as [b|a|b a|g|na0 i0 k0 r0]; try reflexivity;
       try (destruct a as [? ?|? ?|? ?|? ?|? ?|? ?|g]; try reflexivity);
-      (destruct g as [i|nm i|nm i n|nm k|nm e|nm i e|nm key' e|i|i j|nm e|nm k0 n0|v0 nm c0|qs0 nm e]; try reflexivity; cbn [agg_init]; destruct (lookup nm vs); first [reflexivity|apply lookup_app_num]).
+      (destruct g as [i|nm i|nm i n|nm k|nm e|nm i e|nm key' e|i|i j|nm e|nm k0 n0|v0 nm c0|qs0 nm key0 e|qs0 nm e]; try reflexivity; cbn [agg_init]; destruct (lookup nm vs); first [reflexivity|apply lookup_app_num]).
   Qed.
 
   Definition counter_once (nm k : Z) (cs : list comp) : Prop :=
